@@ -920,3 +920,12 @@ seed("C17", "C17-d", "C17.R8")
 seed("C18", "C18-d", "C18.R3")
 seed("C19", "C19-d", "C19.R1")
 seed("C20", "C20-d", "C20.R1")
+
+v("C13", "fillempty-skips-a-level", "fire", F,
+  "        for i in range(shape[level]):\n            f.append(self._fillempty(shape, level + 1))", "        for i in range(shape[level]):\n            f.append(self._fillempty(shape, level + 2))", "C13.R2")
+v("C09", "updatePayloads-depth-step-2", "fire", F,
+  "p.updatePayloads(func, depth=depth - 1)", "p.updatePayloads(func, depth=depth - 2)", "C09.R4")
+v("C20", "codec-encode-depth-step-2", "fire", "codec/tensor_codec.py",
+  "self.encode(depth + 1, a, ranks, output, output_tensor, shape=shape)", "self.encode(depth + 2, a, ranks, output, output_tensor, shape=shape)", "C20.R1")
+v("C02", "addFiber-level-step-0", "fire", T,
+  "self._addFiber(Payload.get(p), level + 1)", "self._addFiber(Payload.get(p), level + 0)", "C02.R5")
